@@ -9,6 +9,7 @@ from vlib import cfgunit, configrun, gen_envelope as GE, gen_json as G, gen_meta
     related
 from vlib.ref_canon import canon
 from vlib.runner import Unit, Violation
+from vlib import threaded as _threaded
 from vlib import interfere as _interfere, interrupt as _interrupt
 
 PROPERTY = "C03"
@@ -322,4 +323,5 @@ UNITS = [
          doc="verify_root verdict and error class == independent root-update rule, both directions"),
     _interfere.unit_after(PROPERTY, 'pairs', quick=150, thorough=6000),
     _interrupt.unit_interrupted(PROPERTY, 'pairs', quick=12, thorough=300, max_points=50, shards_quick=12),
+    _threaded.unit_threads(PROPERTY),
 ]
